@@ -1,12 +1,12 @@
 """C03 plan."""
-from plan import R, D, stages
+from plan import R, D, T, stages
 import fuzzstage
 
 PLAN = dict(
     extra={"thorough": [fuzzstage.diff_stage(0, "C03")]},
     **stages(
-        quick=[(R, "quick", 16), (D, "small", 16)],
-        thorough=[(R, "thorough", 16), (D, "quick", 16)],
+        quick=[(R, "quick", 16), (D, "small", 16), (T, "small", 16)],
+        thorough=[(R, "thorough", 16), (D, "quick", 16), (T, "quick", 16)],
     ),
     rule=("a case is a pool of n version strings (n = 160 quick, 400 thorough; clusters of a seed string and up to "
           "30 one-edit neighbours; seeds from the version grammar, arbitrary Unicode, 19-40 digit runs, huge nb "
